@@ -476,8 +476,12 @@ func runEncoder(r *Run, id, mode, corr string, p EncProfile, oracle func(EncRec,
 	if mode != "color" {
 		// values outside the model, direct oracle only: errors that carry their stack, with and without the caller field
 		direct := stackErrCorpus(mode)
-		if mode == "json" {
-			direct = append(direct, valueGroupCorpus()...)
+		for _, rec := range valueGroupCorpus() {
+			rec.Cfg.Mode = mode
+			if mode == "logfmt" && strings.Contains(fmt.Sprint(rec.Attrs), "g\"q") {
+				continue // (a group name that needs quoting is outside what logfmt keys allow)
+			}
+			direct = append(direct, rec)
 		}
 		for i, rec := range direct {
 			payloads := rec.emit()
